@@ -45,6 +45,14 @@ func captureOnly(ctx context.Context, b *board.Board) (board.MovePriorityFn, boa
 	return search.MVVLVA, board.Move.IsCaptureOrEnPassant
 }
 
+// capturesAndQuietNonChecks explores captures, and quiet moves that do not give check (judged on
+// the board with the move made: the side to move there is the opponent).
+func capturesAndQuietNonChecks(ctx context.Context, b *board.Board) (board.MovePriorityFn, board.MovePredicateFn) {
+	return search.MVVLVA, func(m board.Move) bool {
+		return m.IsCaptureOrEnPassant() || !b.Position().IsChecked(b.Turn())
+	}
+}
+
 // searchConfig names one way the engine can be configured, with the matching reference.
 type searchConfig struct {
 	Name string
@@ -71,6 +79,12 @@ var searchConfigs = []searchConfig{
 	{Name: "synth-skipunder", PositionDetermined: true, make: func(int) (search.Search, refsearch.Config) {
 		return search.AlphaBeta{Explore: sargon.SkipUnderPromotions, Eval: search.Leaf{Eval: SynthEval{}}},
 			refsearch.Config{Explore: sargon.SkipUnderPromotions, Leaf: refsearch.LeafStatic, Eval: SynthEval{}}
+	}},
+	// a selective main search whose predicate LOOKS AT THE BOARD: it is documented to be asked with
+	// the move already made ("post move when called"), as the reference does
+	{Name: "synth-quietnochecks", PositionDetermined: true, make: func(int) (search.Search, refsearch.Config) {
+		return search.AlphaBeta{Explore: capturesAndQuietNonChecks, Eval: search.Leaf{Eval: SynthEval{}}},
+			refsearch.Config{Explore: capturesAndQuietNonChecks, Leaf: refsearch.LeafStatic, Eval: SynthEval{}}
 	}},
 	{Name: "synth-capturequiescence", PositionDetermined: true, Quiescence: true, make: func(int) (search.Search, refsearch.Config) {
 		return search.AlphaBeta{Eval: search.Quiescence{Explore: captureOnly, Eval: search.Leaf{Eval: SynthEval{}}}},
